@@ -6,7 +6,7 @@
         setDeservedResource                    -> [set_deserved]
         divideOverQuotaResource                -> [divide_over_quota]
         getQueuesByPriority                    -> [priorities] + [band]
-        divideUpToFairShare (the [for {}] loop)-> [divide_up_to] (fuel) / [round_queues]
+        divideUpToFairShare (the [for {}] loop)-> [divide_up_to] (fuel) / [round_queues] / [visit]
         calcShareWeights, getTotalWeightsForUnsatisfied
                                                -> [total_weights], [share_weight],
                                                   [share_weights_sum]
